@@ -631,6 +631,12 @@ func (e *ConstEval) transfer(fn *ssa.Function, res *CEResult, v ssa.Value) CVal 
 		if a.K == CBot {
 			return Bot
 		}
+		if a.K == CSym {
+			// a symbol stands for a decoded word; an integer conversion hands the same word on
+			if tb, isB := x.Type().Underlying().(*types.Basic); isB && tb.Info()&types.IsInteger != 0 {
+				return a
+			}
+		}
 		if a.K != CConst {
 			return Top
 		}
